@@ -156,6 +156,15 @@ func (g *caseGen) out(format string, a ...any) {
 	*g.n--
 }
 
+// viaStore: go through the Store gate (always when rfc9520 is off: that is
+// where the switch must hold).
+func (g *caseGen) viaStore() string {
+	if !enabled && g.r.Chance(2, 3) || g.r.Chance(1, 5) {
+		return "s"
+	}
+	return ""
+}
+
 func (g *caseGen) name() nm { return vlib.Pick(g.r, g.pool) }
 
 func (g *caseGen) presOf(n nm) string {
@@ -367,7 +376,16 @@ func (g *caseGen) one() {
 		}
 		g.qs = append(g.qs, q)
 		g.out("fail recq %s %d %d %d", q, g.step(), 3+r.Intn(3), r.Intn(3))
-		if r.Chance(1, 2) {
+		if !enabled || r.Chance(1, 6) {
+			g.out("fail slookup %s %d", q, g.t)
+			if q.scope == "-" || r.Chance(1, 4) {
+				g.out("fail sget %s %d %d %s %d %s", hexName(q.name), q.t, q.c, vlib.B(q.cd), g.t, vlib.B(r.Bool()))
+				g.out("fail slookupw %s %d %d %s %d", g.wireOf(q), q.t, q.c, vlib.B(q.cd), g.t)
+			}
+			g.out("fail sretrykey %s %d", q, lastRetry+i63(r, 3))
+			g.out("fail srecq %s %d %d", q, lastRetry+i63(r, 3), r.Intn(3))
+			g.out("fail len")
+		} else if r.Chance(1, 2) {
 			g.out("fail lookup %s %d", q, g.step())
 		}
 	case k < 24: // record a zone
@@ -378,12 +396,12 @@ func (g *caseGen) one() {
 		g.zs = append(g.zs, z)
 		g.out("fail recz %s %d %d", z, g.step(), 3+r.Intn(3))
 	case k < 46:
-		g.out("fail lookup %s %d", g.relatedQ(), g.step())
+		g.out("fail %slookup %s %d", g.viaStore(), g.relatedQ(), g.step())
 	case k < 54:
 		q := g.relatedQ()
-		g.out("fail lookupw %s %d %d %s %d", g.wireOf(q), q.t, q.c, vlib.B(q.cd), g.step())
+		g.out("fail %slookupw %s %d %d %s %d", g.viaStore(), g.wireOf(q), q.t, q.c, vlib.B(q.cd), g.step())
 	case k < 62:
-		g.out("fail retrykey %s %d", g.relatedQ(), g.step())
+		g.out("fail %sretrykey %s %d", g.viaStore(), g.relatedQ(), g.step())
 	case k < 65:
 		g.out("fail resetq %s", g.relatedQ())
 	case k < 67:
